@@ -245,6 +245,12 @@ fn map_delivery<K: Elem, V: Elem>(c: &mut Ctx, rng: &mut Rng) {
         c.bump("runs_with_real_splits");
     }
     c.sig_parts(&[which, log.partition_sig(), threads as u64]);
+    {
+        let mut sizes: Vec<usize> = log.leaves.lock().unwrap().iter().map(|l| l.len()).filter(|n| *n > 0).collect();
+        sizes.sort();
+        sizes.truncate(24);
+        c.log(format!("{}: delivered {} elements in {} leaf run(s); smallest leaf sizes {:?}", what, want.len(), leaves, sizes));
+    }
     drop(p);
     drop(m);
 }
@@ -254,6 +260,9 @@ fn short_circuit<K: Elem, V: Elem>(c: &mut Ctx, rng: &mut Rng) {
     let n = if c.is_miri() { 24 } else { *rng.pick(&[5u32, 17, 40, 200, 3000]) };
     let threads = if c.is_miri() { 2 } else { *rng.pick(&[1usize, 2, 4, 16]) };
     let ks: Vec<i64> = if n <= 40 { (0..=n as i64).collect() } else { vec![0, 1, 2, n as i64 / 2, n as i64 - 1, n as i64, rng.below(n as u64) as i64] };
+    let mut d = Json::obj();
+    d.set("case", Json::s(format!("short-circuit consumers on HashMap<{},{}> of {} keys, {} thread(s), stop points {:?}", K::NAME, V::NAME, n, threads, ks)));
+    c.describe(d);
     let p = pool(threads);
     for k in ks {
         for which in 0..2u64 {
@@ -316,6 +325,9 @@ fn set_table_delivery(c: &mut Ctx, rng: &mut Rng) {
     let p = pool(threads);
     let rcp = RECIPES[rng.usize_below(RECIPES.len())];
         let spec = Spec::random(rng, rcp);
+    let mut d = Json::obj();
+    d.set("case", Json::s(format!("HashSet<T24>/HashTable<P8,T24> parallel iterators on state [{}], {} thread(s)", spec.describe(), threads)));
+    c.describe(d);
     // sets
     {
         let mut s: SetC<T24> = build(&spec);
@@ -389,6 +401,10 @@ fn split_trees(c: &mut Ctx, rng: &mut Rng) {
     let full: Vec<usize> = (0..nb).filter(|i| d.ctrl[*i] & 0x80 == 0).collect();
     let ngroups = (nb / w).max(1);
     let what = format!("split tree over {} buckets ({} groups), {} full", nb, ngroups, full.len());
+    let mut dsc = Json::obj();
+    dsc.set("case", Json::s(what.clone()));
+    dsc.set("trees", Json::s(if ngroups <= 6 { "every decision bit string" } else { "64 random decision functions" }));
+    c.describe(dsc);
     // a decision tree is a function (depth, remaining upper bound) -> split?; enumerate all by a bit string over visit order
     let n_trees: u64 = if ngroups <= 6 { 1 << (2 * ngroups).min(12) } else { 64 };
     for t in 0..n_trees {
@@ -413,6 +429,9 @@ fn split_trees(c: &mut Ctx, rng: &mut Rng) {
             return;
         }
         let shape: Vec<usize> = leaves.iter().map(|l| l.len()).collect();
+        if t < 3 {
+            c.log(format!("decision bits {:#x} -> leaf sizes {:?}", bits, shape));
+        }
         let mut dg = crate::util::Digest::default();
         dg.u64(nb as u64);
         dg.u64(leaves.len() as u64);
@@ -436,6 +455,9 @@ fn equivalences(c: &mut Ctx, rng: &mut Rng) {
     crate::plan::set_current(bh.plan, bh.salt);
     c.evaluations += 1;
     c.sig_parts(&[90, n as u64, threads as u64]);
+    let mut dsc = Json::obj();
+    dsc.set("case", Json::s(format!("par_extend/from_par_iter/par_eq/parallel set operations vs sequential, n={} on {} thread(s)", n, threads)));
+    c.describe(dsc);
     // par_extend with duplicates in the input: same contents as sequential extend
     let items: Vec<(u32, u32)> = (0..n).map(|i| (rng.below(n as u64 / 2 + 1) as u32, i)).collect();
     let mut a: M<P8, P8> = M::with_hasher_in(bh, CkAlloc);
